@@ -466,6 +466,24 @@ pub fn run_recv(args: &[String]) -> i32 {
             // (prefixes of fragment frames would leave pieces in the assembler under the sequence ids the scenario uses: those come
             // from the frames of another scenario, "junk_from", whose sequences the scenario proper does not use)
             let junk_from: Vec<Vec<u8>> = sc["junk_from"].as_array().map(|a| a.iter().map(|f| bytes_of(&f["bytes"])).collect()).unwrap_or_default();
+            // ... and, once, the scenario's first frame with every other value in its first byte (the frame kind) and, where that byte
+            // stays, in its second (69 / 70 would open fragment sequences: left to the fragment scenarios)
+            if soak > 0 {
+                if let Some(f) = frames.iter().find(|f| f.len() > 2) {
+                    for pos in 0..2usize {
+                        for b in 0..=255u8 {
+                            if b == f[pos] || (pos == 1 && header_mode && (b == 69 || b == 70)) {
+                                continue;
+                            }
+                            let mut g = f.clone();
+                            g[pos] = b;
+                            stream.extend_from_slice(&(g.len() as u32).to_be_bytes());
+                            stream.extend_from_slice(&g);
+                            n_junk += 1;
+                        }
+                    }
+                }
+            }
             for _ in 0..soak {
                 for f in frames.iter().chain(junk_from.iter()) {
                     for k in 1..f.len() {
